@@ -290,6 +290,18 @@ def run(ctx):
     tr2 = ctx.drive(drive, ["--seed", str(ctx.seed), "--n", str(n), "--max-prec", "40"], "trace-rnd.ndjson")
     v2 = par_monitor(ctx, "mon-rnd", tr2, cover=cover)
     verdicts = [v1, v2]
+    # exp / exp_m1 at 1100 bits (base 2): the argument-reduction parameter of exp grows with the bit length of the
+    # precision, and the guard digits only just cover it - the first precision class above 1023 bits is part of every run
+    cfg = fw.write_cfg(ctx.path("Gen_C11_1100.cfg"), invariants=["Emit"],
+                       constants={"Bases": "{2}", "Precs": "{1100}", "Seed": ctx.seed % 100000, "Thin": 4, "ThinBig": 1, "AllModes": "FALSE"})
+    c1100, _ = ctx.gen("gen1100", DIR, "Gen_C11.tla", cfg, workers=4)
+    sel = [l for l in open(c1100) if json.loads(l)["op"] in ("exp", "exp_m1")][:ctx.pick(3, 12)]
+    p1100 = ctx.path("cases-1100.ndjson")
+    open(p1100, "w").write("".join(sel))
+    ctx.scope["gen_cases_p1100_bits"] = len(sel)
+    if sel:
+        tr5 = ctx.drive(drive, ["--cases", p1100, "--n", "0"], "trace-gen1100.ndjson")
+        verdicts.append(par_monitor(ctx, "mon-gen1100", tr5, cover=cover, timeout=3000))
     if not ctx.quick:
         # precision 100 on every base (thinned), a few cases at 300 digits
         cfg = fw.write_cfg(ctx.path("Gen_C11_100.cfg"), invariants=["Emit"],
